@@ -2060,7 +2060,8 @@ class tensor:
         if not first:
             Y, X = X, Y
         data = function_handle(X, Y)
-        copy = False
+        # A handle may hand back (a view of) one of its arguments
+        copy = bool(np.shares_memory(data, X) or np.shares_memory(data, Y))
         if not self._matches_order(data):
             copy = True
             logging.warning(
@@ -2104,7 +2105,8 @@ class tensor:
                 X[i + 1, :] = np.reshape(an_input.data, (np.prod(sz)), order=self.order)
         data = function_handle(X)
         data = np.reshape(data, sz, order=self.order)
-        Z = ttb.tensor(data, copy=False)
+        # A handle may hand back (a view of) its argument, which is our own data
+        Z = ttb.tensor(data, copy=bool(np.shares_memory(data, self.data)))
         return Z
 
     def _tt_to_tensor(
